@@ -1251,6 +1251,7 @@ def _addr_arm(P, u, E, cat, rep, fn, kind, terms, plus, labsrc):
             nty = cat_of(node.fields['ty'])
             vty = cat_of(node.fields['var'].fields['ty'])
             loc = field(node.fields['var'], 'is_local')
+            tls = field(node.fields['var'], 'is_tls')
             valid = True
             if kind == 'ND_MEMBER' and fn == 'eval2' and 'array' not in nty:
                 valid = False        # a non-array member is not an address
@@ -1260,6 +1261,10 @@ def _addr_arm(P, u, E, cat, rep, fn, kind, terms, plus, labsrc):
                 valid = False
             if kind == 'ND_VAR' and fn == 'eval_rval' and loc != 0:
                 valid = False        # address of a local is not constant
+            if kind == 'ND_VAR' and fn == 'eval2' and loc is not None and loc != 0:
+                valid = False        # neither is a local array as a value
+            if kind == 'ND_VAR' and tls is not None and tls != 0:
+                valid = False        # C11 6.6p9: an address constant points to an object of STATIC storage duration; a thread-local object has none before its thread runs
             if valid:
                 nrej += 1
                 rep.ob('R05.7', key + '/rejected', False,
@@ -1268,6 +1273,9 @@ def _addr_arm(P, u, E, cat, rep, fn, kind, terms, plus, labsrc):
             continue
         if kind == 'ND_VAR' and fn == 'eval_rval' and field(node.fields['var'], 'is_local') != 0:
             rep.ob('R05.7', key + '/local-accepted', False, 'eval_rval accepts the address of a local variable as a link-time constant', where=where, facts={'path': ctx.trail})
+            continue
+        if kind == 'ND_VAR' and field(node.fields['var'], 'is_tls') not in (None, 0):
+            rep.ob('R05.7', key + '/thread-local-accepted', False, '%s accepts the address of a thread-local variable as a link-time constant' % fn, where=where, facts={'path': ctx.trail})
             continue
         if kind == 'ND_VAR' and fn == 'eval2' and not set(cat_of(node.fields['var'].fields['ty'])) <= {'array', 'func'}:
             rep.ob('R05.7', key + '/non-address-accepted', False, 'eval2 accepts the VALUE of a non-array variable as an address constant', where=where, facts={'path': ctx.trail})
